@@ -325,6 +325,16 @@ func distrUpdate(x *Exec, f *distrFam, toks []string) string {
 			_, err := ms.UpdateParams(sdk.WrapSDKContext(ctx), msg)
 			return err
 		})
+	case "full-then-fail":
+		// a transaction (or proposal) whose first message is this update and whose later message fails:
+		// everything is rolled back
+		msg := &distrtypes.MsgUpdateParams{Authority: auth, SubDistributors: cloneSubs(f.pending)}
+		res, _ = x.deliver(msg.ValidateBasic, func(ctx sdk.Context) error {
+			if _, err := ms.UpdateParams(sdk.WrapSDKContext(ctx), msg); err != nil {
+				return err
+			}
+			return fmt.Errorf("verif: a later message of the same transaction fails")
+		})
 	case "sub":
 		msg := &distrtypes.MsgUpdateSubDistributorParam{Authority: auth}
 		if toks[3] != "1" && len(f.pending) > 0 {
